@@ -298,9 +298,33 @@ package buffer
 //@   at_call w.WriteHeader {C07} implicit_200: arg0 == ite(bw.code == 0, 200, bw.code)
 //@   at_call w.WriteHeader {C07} final_attempt: b.retryPredicate == nil || attempt > 10 || !callres(b.retryPredicate, 0, 0)
 //@   at_call w.WriteHeader {C07} headers_of_this_attempt: callarg(CopyHeaders, 0, 1) == bw.header
+//@   at_call Copy {C07} body_of_this_attempt: calls(Reader) == 1 && callres(Reader, 0, 1) == nil && arg1 == callres(Reader, 0, 0) && arg0 == w
 //@   at_call w.WriteHeader {C15} nothing_of_an_over_limit_response: bw.writeError == nil && !bw.hijacked
 //@   loop 1 invariant 1 <= attempt && attempt <= 11
 //@   loop 1 invariant req.URL == old(req.URL) && req.ContentLength == old(req.ContentLength) && req.Method == old(req.Method) && req.Header == old(req.Header) && (forall k string :: header(req.Header, k) == old(header(req.Header, k)))
 //@   loop 1 invariant body == nil || body.pos == 0
 //@   loop 1 invariant outReq != nil && outReq != req && fresh(outReq) && outReq.ContentLength == totalSize && len(outReq.TransferEncoding) == 0 && outReq.Method == req.Method && fresh(outReq.URL) && fresh(outReq.Header) && (forall k string :: header(outReq.Header, k) == header(req.Header, k))
 //@   loop 1 invariant !(b.maxRequestBodyBytes > 0 && req.ContentLength > b.maxRequestBodyBytes)
+
+// ---- configuration: each size option sets its own limit and nothing else (the type declares the limits immutable: options
+// run on the object under construction) ------------------------------------------------------------------------------------
+//@ func MaxRequestBodyBytes$1
+//@   props C15
+//@   requires b != nil
+//@   modifies b.maxRequestBodyBytes
+//@   ensures sets_the_request_maximum: (m < 0 ==> result != nil && b.maxRequestBodyBytes == old(b.maxRequestBodyBytes)) && (m >= 0 ==> result == nil && b.maxRequestBodyBytes == m)
+//@ func MemRequestBodyBytes$1
+//@   props C15
+//@   requires b != nil
+//@   modifies b.memRequestBodyBytes
+//@   ensures sets_the_request_threshold_only: (m < 0 ==> result != nil && b.memRequestBodyBytes == old(b.memRequestBodyBytes)) && (m >= 0 ==> result == nil && b.memRequestBodyBytes == m)
+//@ func MaxResponseBodyBytes$1
+//@   props C15
+//@   requires b != nil
+//@   modifies b.maxResponseBodyBytes
+//@   ensures sets_the_response_maximum: (m < 0 ==> result != nil && b.maxResponseBodyBytes == old(b.maxResponseBodyBytes)) && (m >= 0 ==> result == nil && b.maxResponseBodyBytes == m)
+//@ func MemResponseBodyBytes$1
+//@   props C15
+//@   requires b != nil
+//@   modifies b.memResponseBodyBytes
+//@   ensures sets_the_response_threshold_only: (m < 0 ==> result != nil && b.memResponseBodyBytes == old(b.memResponseBodyBytes)) && (m >= 0 ==> result == nil && b.memResponseBodyBytes == m)
